@@ -78,7 +78,7 @@ type AssertClause struct {
 
 // hasSpec: does the contract say anything a caller could use or must establish?
 func (fc *FuncContract) hasSpec() bool {
-	return len(fc.Requires) > 0 || len(fc.Ensures) > 0 || fc.Panics != nil || fc.Pure || fc.Trusted
+	return len(fc.Requires) > 0 || len(fc.Ensures) > 0 || len(fc.Assumes) > 0 || fc.Panics != nil || fc.Pure || fc.Trusted
 }
 
 func (fc *FuncContract) Key() string {
